@@ -94,7 +94,9 @@ func spec(nonce int) []byte {
 			"responses": map[string]any{"default": map[string]any{"description": "d"}}}},
 		"/search": map[string]any{"get": map[string]any{
 			"parameters": []any{map[string]any{"name": "page", "in": "query", "required": true, "style": "deepObject", "explode": true,
-				"schema": map[string]any{"type": "object", "required": []any{"n"}, "properties": map[string]any{"n": map[string]any{"type": "integer", "maximum": 9}}}}},
+				"schema": map[string]any{"type": "object", "required": []any{"n"}, "properties": map[string]any{"n": map[string]any{"type": "integer", "maximum": 9}}}},
+				// a schema with a pattern and no type, shared with a body schema (Dog.code)
+				map[string]any{"name": "c", "in": "query", "schema": map[string]any{"$ref": "#/components/schemas/Code"}}},
 			"responses": map[string]any{"default": map[string]any{"description": "d"}}}},
 		// one schema behind a JSON and a multipart body; its additionalProperties schema has properties of its own
 		"/upload": map[string]any{"post": map[string]any{
@@ -106,7 +108,9 @@ func spec(nonce int) []byte {
 		// a discriminator whose mapping values are bare schema names
 		"Pet": map[string]any{"oneOf": []any{map[string]any{"$ref": "#/components/schemas/Dog"}, map[string]any{"$ref": "#/components/schemas/Cat"}},
 			"discriminator": map[string]any{"propertyName": "petType", "mapping": map[string]any{"dog": "Dog", "cat": "#/components/schemas/Cat"}}},
-		"Dog": map[string]any{"type": "object", "required": []any{"petType"}, "properties": map[string]any{"petType": map[string]any{"type": "string"}, "bark": map[string]any{"type": "boolean"}}},
+		"Code": map[string]any{"pattern": "^[A-Z]{3}$"},
+		"Dog": map[string]any{"type": "object", "required": []any{"petType"}, "properties": map[string]any{"petType": map[string]any{"type": "string"}, "bark": map[string]any{"type": "boolean"},
+			"code": map[string]any{"$ref": "#/components/schemas/Code"}}},
 		"Cat": map[string]any{"type": "object", "required": []any{"petType"}, "properties": map[string]any{"petType": map[string]any{"type": "string"}, "lives": map[string]any{"type": "integer", "maximum": 9}}},
 		"Form": map[string]any{"type": "object", "properties": map[string]any{"name": map[string]any{"type": "string"}},
 			"additionalProperties": map[string]any{"type": "object", "properties": map[string]any{"label": map[string]any{"type": "string"}}}}},
@@ -193,7 +197,7 @@ func (w *world) request(variant int) *http.Request {
 		req, _ := http.NewRequest("GET", fmt.Sprintf("http://localhost/items?filter[a]=%d", variant), nil)
 		return req
 	case 12:
-		req, _ := http.NewRequest("GET", fmt.Sprintf("http://localhost/search?page[n]=%d", variant%20), nil)
+		req, _ := http.NewRequest("GET", fmt.Sprintf("http://localhost/search?page[n]=%d&c=%s", variant%20, []string{"ABC", "abc", "AB"}[variant%3]), nil)
 		return req
 	}
 	switch variant % 11 {
@@ -322,7 +326,7 @@ func (w *world) run(op Op) string {
 		b, _ := json.Marshal(v)
 		return "visit-valid:" + string(b)
 	case "visit-pet":
-		pets := []string{`{"petType":"dog","bark":true}`, `{"petType":"cat","lives":3}`, `{"petType":"cat","lives":30}`, `{"petType":"Dog","bark":true}`, `{"petType":"bird"}`}
+		pets := []string{`{"petType":"dog","bark":true,"code":7}`, `{"petType":"dog","code":"ABC"}`, `{"petType":"dog","bark":true}`, `{"petType":"cat","lives":3}`, `{"petType":"cat","lives":30}`, `{"petType":"Dog","bark":true}`, `{"petType":"bird"}`}
 		var v any
 		_ = json.Unmarshal([]byte(pets[op.Variant%len(pets)]), &v)
 		var opts []openapi3.SchemaValidationOption
